@@ -26,6 +26,7 @@ RULE = (
 )
 RULE += '; template: a spawned task fails early and the body fails differently a few steps later'
 RULE += '; blocks whose body spawns and then fails with every exception of the family (unrenderable, attribute-rejecting, message-less ...)'
+RULE += '; blocks entered inside an `except` handler of the surrounding code'
 LEVEL_TEXT = (
     "Exhaustive single-fault injection per generated program: around every block the harness takes a side-effect-free "
     "context fingerprint (state per family type by identity, metrics scope, task group) before entering and in a "
@@ -163,7 +164,7 @@ def run_case(case) -> Outcome:
 
 def strategy(tier):
     progs = conc.program(disp_faults=True, body_raises=True)
-    return st.one_of(progs, progs, progs, progs, progs, conc.failing_body_program()).map(lambda p: {**p, "inject": None})
+    return st.one_of(progs, progs, progs, progs, progs, conc.failing_body_program(), conc.handler_program()).map(lambda p: {**p, "inject": None})
 
 
 def budget(tier):
